@@ -280,6 +280,8 @@ class QintImp(int, Qtype):
     @classmethod
     def sub(cls, tleft: TExp, tright: TExp) -> TExp:
         """Subtract two Qint"""
+        if len(tright[1]) > len(tleft[1]):
+            tleft = cast(Qtype, tright[0]).fill(tleft)
         an = cls.bitwise_not(cls.fill(tleft))
         su = cls.add(an, cls.fill(tright))
         return cls.bitwise_not(su)
